@@ -14,7 +14,7 @@ import re
 from collections.abc import AsyncIterator, Callable
 from contextlib import asynccontextmanager
 from datetime import date, datetime
-from email import message_from_string
+from email import message_from_bytes, message_from_string
 from email.message import EmailMessage
 from enum import Enum, StrEnum
 from typing import (
@@ -845,8 +845,14 @@ class IMAPClientCommand:
         # as a message structure right away (I hope this works in all cases,
         # even with draft messages.)
         #
-        self.message = message_from_string(
-            self._p_string(), policy=email.policy.SMTP
+        # NOTE: The command arrived as octets and was decoded as latin-1, so
+        #       encoding it back gives us the message's octets exactly as the
+        #       client sent them (a message may be 8bit). Parsing the decoded
+        #       *string* instead makes every non-ascii character fail when the
+        #       message is written to the folder.
+        #
+        self.message = message_from_bytes(
+            self._p_string().encode("latin-1"), policy=email.policy.SMTP
         )
         # XXX Remove this after we are sure our MHMessage -> EmailMessage
         #     conversion.
